@@ -2,8 +2,10 @@ package main
 
 import (
 	"context"
+	"encoding/hex"
 	"encoding/json"
 	"fmt"
+	"io"
 	"os"
 	"path/filepath"
 	"reflect"
@@ -28,6 +30,8 @@ import (
 	shell_operator "github.com/flant/shell-operator/pkg/shell-operator"
 	"github.com/flant/shell-operator/pkg/task"
 	"github.com/flant/shell-operator/pkg/task/queue"
+	"gopkg.in/alecthomas/kingpin.v2"
+	"gopkg.in/yaml.v3"
 )
 
 func init() { suites["c12"] = runC12 }
@@ -78,6 +82,11 @@ type c12Exec struct {
 	stderr  bool // the hook writes a line to stderr (not a failure by itself)
 	killed  bool // the hook process ends by SIGKILL instead of exit (a non-zero exit for the executor)
 
+	// the text written into each output file (decided at generation; "" + class deleted/empty = untouched)
+	mtext, atext, ctext, ptext string
+	pfmt                       string // patch text is a JSON stream ("json") or YAML ("yaml")
+	texted                     bool
+
 	// observed
 	status   string
 	admProp  bool
@@ -88,55 +97,210 @@ var c12MetricsClasses = []string{"empty", "valid", "badbatch", "truncated", "wro
 var c12RespClasses = []string{"empty", "valid", "truncated", "wrongtype", "deleted"}
 var c12PatchClasses = []string{"empty", "valid", "applyerr", "invaliddoc", "truncated", "wrongtype", "deleted"}
 
+// third wave: more shapes of malformed text (the driver decides from the text whether a file is
+// well-formed; the class is the generator's intention and the bucket name)
+var c12MalformedShapes = []string{"strayclose", "garbage", "badtoken", "blank"}
+var c12MetricsClassesAll = append(append([]string{}, c12MetricsClasses...), c12MalformedShapes...)
+var c12RespClassesAll = append(append(append([]string{}, c12RespClasses...), c12MalformedShapes...), "twodocs")
+var c12PatchClassesAll = append(append([]string{}, c12PatchClasses...), c12MalformedShapes...)
+
+// does a YAML reader accept the whole text (as a sequence of documents of any shape)?
+func c12IsYAML(text string) bool {
+	dec := yaml.NewDecoder(strings.NewReader(text))
+	for {
+		var n yaml.Node
+		err := dec.Decode(&n)
+		if err == io.EOF {
+			return true
+		}
+		if err != nil {
+			return false
+		}
+	}
+}
+
+func c12Hex(s string) string { return "x" + hex.EncodeToString([]byte(s)) }
+
+var c12Seps = []string{"\n", "\n", " ", "", "\r\n", "\t", "\n\n"}
+
+// a number in every form encoding/json accepts
+func c12Num(rng *Rng) string {
+	return PickOne(rng, []string{"1", "2", "7", "10", "0", "-3", "2.50", "0.5", "-0.25", "1e2", "1E+2", "25e-1", "1.5e1"})
+}
+
+// a field encoding/json ignores (unknown name), with a value that exercises the whole grammar
+func c12ExtraField(rng *Rng) string {
+	return PickOne(rng, []string{
+		`"zz":null`, `"zz":[]`, `"zz":{}`, `"zz":[1,-2.5e-3,null,true,false,"s"]`, `"zz":{"k":{"l":[{"m":"\u0041\n\"q\"\\"}]}}`,
+		`"zz" : [ 1 , 2 ]`, `"zz":"{not a } brace]"`, `"zz":"\/\b\f\r\t"`,
+	})
+}
+
+// damage a well-formed text (recs = its records / documents, joined by sep): the result is malformed
+// JSON whatever the records are
+func c12Malform(rng *Rng, shape string, recs []string, sep string) string {
+	join := func(rs []string) string { return strings.Join(rs, sep) }
+	last := recs[len(recs)-1]
+	switch shape {
+	case "truncated":
+		// cut strictly inside the last record: what is left of it is an unclosed value
+		cut := 1 + rng.Intn(len(last)-1)
+		return join(append(append([]string{}, recs[:len(recs)-1]...), last[:cut]))
+	case "strayclose":
+		cl := PickOne(rng, []string{"}", "]", "}", "]", "}}", "]}", "} ]"})
+		switch rng.Intn(6) {
+		case 0: // glued to the last record: {...}}
+			return join(recs) + cl + PickOne(rng, []string{"", "\n"})
+		case 1: // on its own line after the last record (a badly sliced array)
+			return join(recs) + "\n" + cl + "\n"
+		case 2: // before the first record (tail of a torn write)
+			return cl + PickOne(rng, []string{"", "\n", " "}) + join(recs) + "\n"
+		case 3: // nothing but the closer
+			return cl + PickOne(rng, []string{"", "\n"})
+		case 4: // between two records
+			return join(recs) + PickOne(rng, []string{"", "\n", " "}) + cl + "\n" + last + "\n"
+		default: // after white space
+			return join(recs) + " \t" + cl
+		}
+	case "garbage":
+		g := PickOne(rng, []string{"garbage", "x", ",", "{", "[", ":", "\"", "nul", "tru", "-", "\x00", "{\"name\"", "//c", "undefined", "'a'", ";"})
+		switch rng.Intn(4) {
+		case 0:
+			return join(recs) + g
+		case 1:
+			return join(recs) + "\n" + g + "\n"
+		case 2:
+			return g + PickOne(rng, []string{"", "\n", " "}) + join(recs) + "\n"
+		default:
+			return join(recs) + " " + g + " " + last
+		}
+	case "badtoken":
+		bad := last
+		switch rng.Intn(9) {
+		case 0:
+			bad = strings.Replace(bad, ":", "=", 1)
+		case 1:
+			bad = strings.ReplaceAll(bad, "\"", "'")
+		case 2: // unquoted first key
+			if i := strings.Index(bad, "\""); i >= 0 {
+				if j := strings.Index(bad[i+1:], "\""); j >= 0 {
+					bad = bad[:i] + bad[i+1:i+1+j] + bad[i+2+j:]
+				}
+			}
+		case 3: // trailing comma
+			if i := strings.LastIndex(bad, "}"); i >= 0 {
+				bad = bad[:i] + "," + bad[i:]
+			}
+		case 4: // a number that is none, as the value of an ignored field
+			if i := strings.Index(bad, "{"); i >= 0 {
+				bad = bad[:i+1] + `"zz":` + PickOne(rng, []string{"01", "+1", ".5", "1.", "1e", "0x10", "NaN", "-", "1.e2", "--1", "1e+"}) + "," + bad[i+1:]
+			}
+		case 5: // a raw control character inside a string
+			if i := strings.Index(bad, "{"); i >= 0 {
+				bad = bad[:i+1] + "\"zz\":\"a" + PickOne(rng, []string{"\n", "\t", "\x01"}) + "b\"," + bad[i+1:]
+			}
+		case 6: // an escape that does not exist
+			if i := strings.Index(bad, "{"); i >= 0 {
+				bad = bad[:i+1] + `"zz":"a` + PickOne(rng, []string{`\x41`, `\u00g1`, `\a`, `\'`, `\u12`}) + `b",` + bad[i+1:]
+			}
+		case 7: // a literal that does not exist
+			if i := strings.Index(bad, "{"); i >= 0 {
+				bad = bad[:i+1] + `"zz":` + PickOne(rng, []string{"True", "nil", "NULL", "tru", "falsey", "nulll"}) + "," + bad[i+1:]
+			}
+		default: // missing comma / colon
+			if i := strings.Index(bad, "{"); i >= 0 {
+				bad = bad[:i+1] + PickOne(rng, []string{`"zz":1 `, `"zz" 1,`, `"zz":,`, `,`, `"zz":1,,`, `1:2,`}) + bad[i+1:]
+			}
+		}
+		if bad == last { // a record without braces / quotes (null): make it a non-token
+			bad = last + "?"
+		}
+		return join(append(append([]string{}, recs[:len(recs)-1]...), bad)) + "\n"
+	case "blank": // nothing but white space: not a document
+		return PickOne(rng, []string{" ", "\n", "\t\n", "  \r\n "})
+	case "twodocs":
+		return last + PickOne(rng, []string{"", "\n", " "}) + last + "\n"
+	}
+	return join(recs)
+}
+
 func c12MetricName(eid int) string { return fmt.Sprintf("c12_m_%d", eid) }
 func c12ObjName(eid int) string    { return fmt.Sprintf("c12-%d", eid) }
 
-// content of an output file for a class ("" + false = leave the file as it is: empty)
-func c12Content(kind, class string, eid int, rng *Rng) (string, bool) {
+// content of an output file for a class ("" + false = leave the file as it is: empty); the third
+// result says whether a patch text is a JSON stream or YAML
+func c12Content(kind, class string, eid int, rng *Rng) (string, bool, string) {
 	switch class {
 	case "empty":
-		return "", false
+		return "", false, "json"
 	case "deleted":
-		return "", false
+		return "", false, "json"
 	}
+	sep := PickOne(rng, c12Seps)
+	ws := func(rec string) string { // optional insignificant white space inside a compact record
+		if !rng.Chance(25) {
+			return rec
+		}
+		return strings.NewReplacer(`":`, `" : `, `,"`, ` ,`+PickOne(rng, []string{" ", "\n\t", "\r\n"})+`"`, `{"`, `{ "`).Replace(rec)
+	}
+	isShape := func() bool {
+		for _, sh := range c12MalformedShapes {
+			if class == sh {
+				return true
+			}
+		}
+		return class == "truncated" || class == "twodocs"
+	}()
 	switch kind {
 	case "metrics":
-		valid := fmt.Sprintf(`{"name":"%s","set":%d,"labels":{"a":"b"}}`+"\n", c12MetricName(eid), 1+rng.Intn(9))
-		switch class {
-		case "valid":
-			return valid + PickOne(rng, []string{"", `{"name":"c12_extra","action":"add","value":1}` + "\n"}), true
-		case "badbatch":
-			return valid + PickOne(rng, []string{
+		own := fmt.Sprintf(`{"name":"%s","set":%s,"labels":{"a":"b"}}`, c12MetricName(eid), c12Num(rng))
+		if rng.Chance(30) {
+			own = fmt.Sprintf(`{"name":"%s","action":"set","value":%s,%s}`, c12MetricName(eid), c12Num(rng), c12ExtraField(rng))
+		}
+		own = ws(own)
+		recs := []string{own}
+		if rng.Chance(40) {
+			recs = append(recs, ws(PickOne(rng, []string{`{"name":"c12_extra","action":"add","value":1}`, `{"name":"c12_extra2","add":2.5,"labels":{}}`, `{"group":"g","action":"expire"}`})))
+		}
+		switch {
+		case class == "valid":
+			return strings.Join(recs, sep) + PickOne(rng, []string{"\n", "", " ", "\r\n"}), true, "json"
+		case class == "badbatch":
+			return own + "\n" + PickOne(rng, []string{
 				`{"name":"c12_bad","action":"frobnicate","value":1}`,
 				`{"action":"set","value":1}`,
 				`{"name":"c12_bad","action":"set"}`,
 				`null`,
-			}) + "\n", true
-		case "truncated":
-			cut := 3 + rng.Intn(len(valid)-6)
-			return PickOne(rng, []string{valid, ""}) + valid[:cut], true
-		case "wrongtype":
-			return PickOne(rng, []string{`[1,2,3]`, `"metrics"`, `42`, `{"name":7}`, valid + `[{"name":"x"}]`}), true
+				`{}`,
+			}) + "\n", true, "json"
+		case class == "wrongtype":
+			return PickOne(rng, []string{`[1,2,3]`, `"metrics"`, `42`, `true`, `{"name":7}`, own + sep + `[{"name":"x"}]`,
+				own + sep + `{"name":"x","labels":{"a":1}}`, `{"name":"x","buckets":[1,"2"]}`, `{"name":"x","set":"1"}`, `{"Name":7}`,
+				own + sep + `{"name":"x","value":true}`, `{"name":"x","labels":["a"]}`, `{"name":"x","action":1}`, own + "\n" + `{"group":{}}`}), true, "json"
+		case isShape:
+			return c12Malform(rng, class, recs, sep), true, "json"
 		}
-	case "admission":
-		valid := PickOne(rng, []string{`{"allowed":true}`, `{"allowed":false,"message":"no"}`, `{"allowed":true,"warnings":["w"]}`})
-		switch class {
-		case "valid":
-			return valid + "\n", true
-		case "truncated":
-			return valid[:3+rng.Intn(len(valid)-4)], true
-		case "wrongtype":
-			return PickOne(rng, []string{`[true]`, `"yes"`, `42`, `{"allowed":"yes"}`, `{"allowed":true,"warnings":"w"}`}), true
+	case "admission", "conversion":
+		var valid string
+		if kind == "admission" {
+			valid = PickOne(rng, []string{`{"allowed":true}`, `{"allowed":false,"message":"no"}`, `{"allowed":true,"warnings":["w"]}`,
+				`{"allowed":true,` + c12ExtraField(rng) + `}`, `{"message":null,"allowed":true,"warnings":null}`, `{}`})
+		} else {
+			valid = PickOne(rng, []string{`{"convertedObjects":[{"apiVersion":"v1","kind":"X"}]}`, `{"failedMessage":"nope"}`,
+				`{"convertedObjects":[],` + c12ExtraField(rng) + `}`, `{"failedMessage":"","convertedObjects":null}`, `{}`})
 		}
-	case "conversion":
-		valid := PickOne(rng, []string{`{"convertedObjects":[{"apiVersion":"v1","kind":"X"}]}`, `{"failedMessage":"nope"}`})
-		switch class {
-		case "valid":
-			return valid + "\n", true
-		case "truncated":
-			return valid[:3+rng.Intn(len(valid)-4)], true
-		case "wrongtype":
-			return PickOne(rng, []string{`["x"]`, `"done"`, `42`, `{"convertedObjects":"none"}`, `{"failedMessage":["a"]}`}), true
+		valid = ws(valid)
+		switch {
+		case class == "valid":
+			return PickOne(rng, []string{"", "", " ", "\n"}) + valid + PickOne(rng, []string{"\n", "", " \n\t", "\r\n"}), true, "json"
+		case class == "wrongtype" && kind == "admission":
+			return PickOne(rng, []string{`[true]`, `"yes"`, `42`, `true`, `{"allowed":"yes"}`, `{"allowed":true,"warnings":"w"}`,
+				`{"allowed":1}`, `{"allowed":true,"message":5}`, `{"allowed":true,"warnings":[1]}`, `{"ALLOWED":"x"}`, `{"allowed":{}}`}), true, "json"
+		case class == "wrongtype":
+			return PickOne(rng, []string{`["x"]`, `"done"`, `42`, `false`, `{"convertedObjects":"none"}`, `{"failedMessage":["a"]}`,
+				`{"failedMessage":7}`, `{"convertedObjects":{}}`, `{"FailedMessage":true}`, `{"convertedObjects":1}`}), true, "json"
+		case isShape:
+			return c12Malform(rng, class, []string{valid}, sep), true, "json"
 		}
 	case "patch":
 		mk := func(name string) string {
@@ -145,33 +309,58 @@ func c12Content(kind, class string, eid int, rng *Rng) (string, bool) {
 			}
 			return fmt.Sprintf("operation: Create\nobject:\n  apiVersion: v1\n  kind: ConfigMap\n  metadata:\n    name: %s\n    namespace: default\n  data:\n    k: v\n", name)
 		}
-		join := func(a, b string) string {
-			if strings.HasPrefix(a, "{") && strings.HasPrefix(b, "{") {
-				return a + "\n" + b + "\n"
+		mkJSON := func(name string) string {
+			return ws(fmt.Sprintf(`{"operation":"Create","object":{"apiVersion":"v1","kind":"ConfigMap","metadata":{"name":"%s","namespace":"default"},"data":{"k":"v"}}}`, name))
+		}
+		isJ := func(d string) bool { return strings.HasPrefix(d, "{") }
+		join := func(a, b string) (string, string) {
+			if isJ(a) && isJ(b) {
+				return a + "\n" + b + "\n", "json"
 			}
 			// mixed or YAML: both as YAML documents (JSON is YAML)
-			return a + "\n---\n" + b + "\n"
+			return a + "\n---\n" + b + "\n", "yaml"
+		}
+		fmtOf := func(d string) string {
+			if isJ(d) {
+				return "json"
+			}
+			return "yaml"
 		}
 		own := mk(c12ObjName(eid))
-		switch class {
-		case "valid":
-			return own + "\n", true
-		case "applyerr":
-			return join(own, mk("existing")), true
-		case "invaliddoc":
+		switch {
+		case class == "valid":
+			return own + "\n", true, fmtOf(own)
+		case class == "applyerr":
+			t, f := join(own, mk("existing"))
+			return t, true, f
+		case class == "invaliddoc":
 			bad := PickOne(rng, []string{`{"operation":"Frobnicate","kind":"ConfigMap","name":"x"}`, `{"operation":"Delete","name":"x"}`, `{"operation":"Create"}`})
 			if rng.Bool() {
-				return join(own, bad), true
+				t, f := join(own, bad)
+				return t, true, f
 			}
-			return join(bad, own), true
-		case "truncated":
-			j := fmt.Sprintf(`{"operation":"Create","object":{"apiVersion":"v1","kind":"ConfigMap","metadata":{"name":"%s","namespace":"default"}}}`, c12ObjName(eid))
-			return j[:10+rng.Intn(len(j)-12)], true
-		case "wrongtype":
-			return PickOne(rng, []string{`[1,2]`, `"just a string"`, `42`, `{"operation":["Create"]}`}), true
+			t, f := join(bad, own)
+			return t, true, f
+		case class == "wrongtype":
+			return PickOne(rng, []string{`[1,2]`, `"just a string"`, `42`, `{"operation":["Create"]}`}), true, "json"
+		case isShape:
+			recs := []string{mkJSON(c12ObjName(eid))}
+			if rng.Chance(30) {
+				recs = append(recs, mkJSON(fmt.Sprintf("c12-second-%d", eid)))
+			}
+			// The patch file is "JSON or YAML": a text that is not JSON is handed to the YAML reader, and
+			// YAML's flow syntax accepts some damaged JSON (trailing comma, unquoted or single-quoted
+			// keys). Whether a text is YAML is not modelled: the generator stays out of that class — a
+			// damaged text that any YAML reader still accepts is replaced (a cut inside a record never is).
+			for try := 0; try < 8; try++ {
+				if t := c12Malform(rng, class, recs, PickOne(rng, []string{"\n", "\n", " ", ""})); !c12IsYAML(t) {
+					return t, true, "json"
+				}
+			}
+			return c12Malform(rng, "truncated", recs, "\n"), true, "json"
 		}
 	}
-	return "", false
+	return "", false, "json"
 }
 
 // ---------------------------------------------------------------- one operator per case
@@ -183,6 +372,7 @@ type c12Env struct {
 	fc                                        *fake.Cluster
 	hookMetrics                               *metricstorage.MetricStorage
 	cancel                                    context.CancelFunc
+	setting                                   *string // value of --debug-keep-tmp-files the case runs with (nil: the default)
 }
 
 func c12Setup(r *Run, c *Case, hookFiles []string) (*c12Env, error) {
@@ -252,16 +442,41 @@ func (e *c12Env) writeScripts(x *c12Exec, rng *Rng) error {
 	if err := os.MkdirAll(d, 0o755); err != nil {
 		return err
 	}
-	for kind, class := range map[string]string{"metrics": x.metrics, "admission": x.adm, "conversion": x.conv, "patch": x.patch} {
+	if x.texted { // corpus: the texts are given
+		if x.pfmt == "" {
+			x.pfmt = "json"
+		}
+		for _, kt := range [][2]string{{"metrics", x.mtext}, {"admission", x.atext}, {"conversion", x.ctext}, {"patch", x.ptext}} {
+			if kt[1] != "" {
+				if err := os.WriteFile(filepath.Join(d, kt[0]), []byte(kt[1]), 0o644); err != nil {
+					return err
+				}
+			}
+		}
+		return os.WriteFile(filepath.Join(d, "exit"), []byte(fmt.Sprint(x.exit)), 0o644)
+	}
+	x.pfmt = "json"
+	for _, kc := range [][2]string{{"metrics", x.metrics}, {"admission", x.adm}, {"conversion", x.conv}, {"patch", x.patch}} {
+		kind, class := kc[0], kc[1]
 		if class == "deleted" {
 			if err := os.WriteFile(filepath.Join(d, kind+".delete"), nil, 0o644); err != nil {
 				return err
 			}
 			continue
 		}
-		if content, ok := c12Content(kind, class, x.eid, rng); ok {
+		if content, ok, pf := c12Content(kind, class, x.eid, rng); ok {
 			if err := os.WriteFile(filepath.Join(d, kind), []byte(content), 0o644); err != nil {
 				return err
+			}
+			switch kind {
+			case "metrics":
+				x.mtext = content
+			case "admission":
+				x.atext = content
+			case "conversion":
+				x.ctext = content
+			case "patch":
+				x.ptext, x.pfmt = content, pf
 			}
 		}
 	}
@@ -406,12 +621,85 @@ func (e *c12Env) envObs(x *c12Exec) (string, []string) {
 	ctxOK := json.Unmarshal([]byte(read("context")), &got) == nil && reflect.DeepEqual(got, any(want))
 	aliasOK := env["VALIDATING_RESPONSE_PATH"] != "" && env["VALIDATING_RESPONSE_PATH"] == env["ADMISSION_RESPONSE_PATH"]
 	names := []string{env["BINDING_CONTEXT_PATH"], env["METRICS_PATH"], env["CONVERSION_RESPONSE_PATH"], env["ADMISSION_RESPONSE_PATH"], env["KUBERNETES_PATCH_PATH"]}
-	return fmt.Sprintf("vars=%d pwd=%s dir=%s pattern=%s sizes=%s ctx=%s alias=%s", len(env), c13B01(pwdOK), c13B01(dirOK), c13B01(patOK), c13B01(sizesOK), c13B01(ctxOK), c13B01(aliasOK)), names
+	return fmt.Sprintf("inherit=%d vars=%d pwd=%s dir=%s pattern=%s sizes=%s ctx=%s alias=%s", c12InheritedVars(), len(env), c13B01(pwdOK), c13B01(dirOK), c13B01(patOK), c13B01(sizesOK), c13B01(ctxOK), c13B01(aliasOK)), names
+}
+
+// ---------------------------------------------------------------- the operator's own environment
+
+var c12PathVars = []string{"BINDING_CONTEXT_PATH", "METRICS_PATH", "CONVERSION_RESPONSE_PATH", "VALIDATING_RESPONSE_PATH", "ADMISSION_RESPONSE_PATH", "KUBERNETES_PATCH_PATH"}
+
+// how many of the six variables the operator process (this process) has in its own environment
+func c12InheritedVars() int {
+	n := 0
+	for _, v := range c12PathVars {
+		if _, ok := os.LookupEnv(v); ok {
+			n++
+		}
+	}
+	return n
+}
+
+// The operator itself runs as a hook of an outer operator (or under a wrapper that exports these
+// variables): its environment already holds the six variables, pointing to somebody else's files.
+// which: bit i set = variable i is present. Returns the undo.
+func c12SetOuterEnv(r *Run, which int) func() {
+	d := filepath.Join(r.Scratch, "c12-outer")
+	_ = os.MkdirAll(d, 0o755)
+	files := map[string]string{
+		"BINDING_CONTEXT_PATH":     `[{"binding":"outer-binding"}]`,
+		"METRICS_PATH":             "",
+		"CONVERSION_RESPONSE_PATH": "",
+		"VALIDATING_RESPONSE_PATH": "",
+		"ADMISSION_RESPONSE_PATH":  "",
+		"KUBERNETES_PATCH_PATH":    "",
+	}
+	var set []string
+	for i, v := range c12PathVars {
+		if which&(1<<i) == 0 {
+			continue
+		}
+		p := filepath.Join(d, "outer-"+strings.ToLower(v))
+		_ = os.WriteFile(p, []byte(files[v]), 0o644)
+		_ = os.Setenv(v, p)
+		set = append(set, v)
+	}
+	return func() {
+		for _, v := range set {
+			_ = os.Unsetenv(v)
+		}
+	}
+}
+
+// ---------------------------------------------------------------- the keep-tmp-files setting
+
+// configure --debug-keep-tmp-files the way the operator does: the real flag definition
+// (app.DefineDebugFlags), given on the command line or through DEBUG_KEEP_TMP_FILES
+func c12ConfigureKeep(value string, viaEnv bool) (string, error) {
+	kp := kingpin.New("shell-operator", "")
+	kp.Terminate(func(int) {})
+	cmd := kp.Command("start", "")
+	app.DefineDebugFlags(kp, cmd)
+	args := []string{"start"}
+	if viaEnv {
+		_ = os.Setenv("DEBUG_KEEP_TMP_FILES", value)
+		defer os.Unsetenv("DEBUG_KEEP_TMP_FILES")
+	} else {
+		args = append(args, "--debug-keep-tmp-files="+value)
+	}
+	if _, err := kp.Parse(args); err != nil {
+		return "", err
+	}
+	return app.DebugKeepTmpFilesVar, nil
 }
 
 func (x *c12Exec) line() string {
-	return fmt.Sprintf("exec %d hook=%d q=%d nctx=%d allow=%s exit=%d metrics=%s adm=%s conv=%s patch=%s",
-		x.eid, x.hook, x.q, x.nctx, c13B01(x.allow), x.exit, x.metrics, x.adm, x.conv, x.patch)
+	pf := x.pfmt
+	if pf == "" {
+		pf = "json"
+	}
+	return fmt.Sprintf("exec %d hook=%d q=%d nctx=%d allow=%s exit=%d metrics=%s adm=%s conv=%s patch=%s mt=%s at=%s ct=%s pt=%s pf=%s",
+		x.eid, x.hook, x.q, x.nctx, c13B01(x.allow), x.exit, x.metrics, x.adm, x.conv, x.patch,
+		c12Hex(x.mtext), c12Hex(x.atext), c12Hex(x.ctext), c12Hex(x.ptext), pf)
 }
 
 // report: one exec line + oracles per execution (in eid order), then the temp dir and the names
@@ -428,7 +716,11 @@ func (e *c12Env) report(c *Case, xs []*c12Exec) {
 	}
 	left := e.leftover()
 	c.Op("tmpdir", fmt.Sprintf("leftover=%d", left))
-	c.Oracle(fmt.Sprintf("tmpdir leftover=%d", left))
+	if e.setting != nil {
+		c.Oracle(fmt.Sprintf("tmpdir leftover=%d setting=%s", left, c12Hex(*e.setting)))
+	} else {
+		c.Oracle(fmt.Sprintf("tmpdir leftover=%d", left))
+	}
 	in := NewInterner()
 	var ids []int
 	for _, n := range all {
@@ -520,10 +812,10 @@ func c12GenExec(rng *Rng, eid, nhooks, nq int) *c12Exec {
 		}
 	}
 	x.stderr = rng.Chance(30)
-	x.metrics = c12PickClass(rng, c12MetricsClasses)
-	x.adm = c12PickClass(rng, c12RespClasses)
-	x.conv = c12PickClass(rng, c12RespClasses)
-	x.patch = c12PickClass(rng, c12PatchClasses)
+	x.metrics = c12PickClass(rng, c12MetricsClassesAll)
+	x.adm = c12PickClass(rng, c12RespClassesAll)
+	x.conv = c12PickClass(rng, c12RespClassesAll)
+	x.patch = c12PickClass(rng, c12PatchClassesAll)
 	return x
 }
 
@@ -597,8 +889,9 @@ func c12Random(r *Run) func(c *Case, rng *Rng) {
 
 func runC12(r *Run) {
 	r.Rule = "a case = 1-3 generated bash hooks loaded by the real hook manager + 1-6 executions spread over 1-3 queue workers running " +
-		"concurrently; each execution has a scripted exit code (25% non-zero, some killed by a signal; 30% write to stderr) and scripted contents of the metrics / admission / conversion / patch " +
-		"files (empty, valid, truncated, wrong type, deleted; metrics also valid-but-rejected batch; patch also failing application and invalid document); " +
+		"concurrently; each execution has a scripted exit code (25% non-zero, some killed by a signal; 30% write to stderr) and scripted TEXT of the metrics / admission / conversion / patch " +
+		"files (empty, valid in many spellings — white space, every number form, escapes, ignored fields —, cut inside a record, wrong type, stray closing brackets at a record boundary, leading / trailing garbage, bad tokens, blank, second document, deleted; metrics also valid-but-rejected batch; patch also failing application and invalid document, JSON or YAML); the text goes to the Lean driver, which decides from it whether the file is well-formed; " +
+		"a third of the cases run with an operator process whose own environment already holds (all / some of) the six path variables; at the end 8 (thorough: 17) values of --debug-keep-tmp-files, each through the real flag definition (command line or DEBUG_KEEP_TMP_FILES) before the hooks are loaded; " +
 		"every execution goes through the real taskHandler -> handleRunHook -> Hook.Run with a real process, real MetricStorage and kube-client/fake; " +
 		"the hook records pwd, the six path variables, initial file sizes and the context file. 35% of the cases add a hook whose name (189-193 characters) makes the creation of the 4th / 3rd / 1st temp file fail (NAME_MAX) and run it once more at the end: not started, failed, nothing left behind. Non-trivial = at least 2 executions or a non-empty output/non-zero exit."
 	app.DebugKeepTmpFilesVar = "no"
@@ -712,8 +1005,113 @@ func runC12(r *Run) {
 		c.Nontrivial = true
 	})
 
+	// corpus 4: malformed text at a record boundary — stray closing brackets, trailing garbage, a second
+	// document — in each of the four files (one execution per shape, everything else well-formed)
+	r.One(4, func(c *Case, rng *Rng) {
+		env, err := c12Setup(r, c, c12HookFiles[:2])
+		if err != nil {
+			c.Op("setup", "harness-error "+err.Error())
+			return
+		}
+		defer env.close()
+		var xs []*c12Exec
+		add := func(m, a, cv, p string) {
+			eid := len(xs) + 1
+			x := &c12Exec{eid: eid, hook: eid % 2, q: 1, nctx: 1, texted: true, pfmt: "json",
+				metrics: "valid", adm: "valid", conv: "valid", patch: "valid"}
+			own := fmt.Sprintf(`{"name":"%s","set":1}`, c12MetricName(eid))
+			x.mtext = own + "\n"
+			x.atext = `{"allowed":true}` + "\n"
+			x.ctext = `{"failedMessage":"nope"}` + "\n"
+			po := fmt.Sprintf(`{"operation":"Create","object":{"apiVersion":"v1","kind":"ConfigMap","metadata":{"name":"%s","namespace":"default"}}}`, c12ObjName(eid))
+			x.ptext = po + "\n"
+			if m != "" {
+				x.metrics, x.mtext = "strayclose", strings.ReplaceAll(m, "OWN", own)
+			}
+			if a != "" {
+				x.adm, x.atext = "strayclose", a
+			}
+			if cv != "" {
+				x.conv, x.ctext = "strayclose", cv
+			}
+			if p != "" {
+				x.patch, x.ptext = "strayclose", strings.ReplaceAll(p, "OWN", po)
+			}
+			xs = append(xs, x)
+		}
+		add("", "", "", "")
+		add("OWN}", "", "", "")
+		add("OWN\n]\n", "", "", "")
+		add("}", "", "", "")
+		add("}\nOWN\n", "", "", "")
+		add("OWN\nOWN]", "", "", "")
+		add("OWN garbage", "", "", "")
+		add(" \n", "", "", "")
+		add("", `{"allowed":true}}`, "", "")
+		add("", `{"allowed":true}`+"\n"+`{"allowed":false}`, "", "")
+		add("", "", `{"failedMessage":"nope"}}`, "")
+		add("", "", `{"convertedObjects":[]}`+"\n]", "")
+		add("", "", `{"failedMessage":""} garbage`, "")
+		add("", "", "", "OWN}")
+		add("", "", "", "OWN\n]\n")
+		add("", "", "", "OWN\ngarbage\n")
+		for _, x := range xs {
+			_ = env.writeScripts(x, rng)
+		}
+		env.runAll(xs)
+		env.report(c, xs)
+		c12Notes(c, xs)
+		c.Note("corpus")
+		c.Desc = "corpus: stray closing brackets / trailing garbage / a second document at a record boundary, in each of the four output files"
+		c.Nontrivial = true
+	})
+
 	n := r.N(150, 1500)
-	r.Cases(100, n, 0, c12Random(r))
+	r.Cases(100, n-n/3, 0, c12Random(r))
+
+	// the same with an operator whose own environment already holds (some of) the six variables
+	// (shell-operator started from a hook of an outer operator): what the hook process sees must
+	// still be the files of its own execution. The environment is process-global: these cases run
+	// after the others; which variables are present is fixed per batch.
+	{
+		pick := NewRng(r.Seed*104729 + 5)
+		batches := []int{63, 1 + pick.Intn(62)}
+		per := n / 3 / len(batches)
+		for bi, which := range batches {
+			undo := c12SetOuterEnv(r, which)
+			if bi == 0 {
+				r.One(5, func(c *Case, rng *Rng) {
+					env, err := c12Setup(r, c, c12HookFiles[:2])
+					if err != nil {
+						c.Op("setup", "harness-error "+err.Error())
+						return
+					}
+					defer env.close()
+					xs := []*c12Exec{
+						{eid: 1, hook: 0, q: 1, metrics: "valid", adm: "valid", conv: "valid", patch: "valid", nctx: 2},
+						{eid: 2, hook: 1, q: 2, exit: 1, metrics: "valid", adm: "empty", conv: "empty", patch: "empty", nctx: 1},
+						{eid: 3, hook: 1, q: 2, metrics: "truncated", adm: "empty", conv: "empty", patch: "valid", nctx: 3},
+					}
+					for _, x := range xs {
+						_ = env.writeScripts(x, rng)
+					}
+					env.runAll(xs)
+					env.report(c, xs)
+					c12Notes(c, xs)
+					c.Note("corpus")
+					c.Note("operator-env:has-hook-vars")
+					c.Desc = "corpus: the operator's own environment holds the six path variables (it runs as a hook of an outer operator)"
+					c.Nontrivial = true
+				})
+			}
+			inner := c12Random(r)
+			r.Cases(50000+bi*10000, per, 0, func(c *Case, rng *Rng) {
+				inner(c, rng)
+				c.Note("operator-env:has-hook-vars")
+			})
+			undo()
+		}
+	}
 
 	if r.Thorough() {
 		// exhaustive small scope: one execution, every combination of exit in {0,1} and file classes
@@ -748,33 +1146,112 @@ func runC12(r *Run) {
 			env.report(c, []*c12Exec{x})
 			c.Nontrivial = true
 		})
+		// third wave: every malformed-text shape in every file, one at a time (the other files well-formed
+		// or empty), exit 0 and 1, 12 random variants of each
+		type one struct {
+			kind, shape string
+			exit        int
+		}
+		var ones []one
+		for _, kind := range []string{"metrics", "admission", "conversion", "patch"} {
+			shapes := append([]string{"truncated", "wrongtype"}, c12MalformedShapes...)
+			if kind == "admission" || kind == "conversion" {
+				shapes = append(shapes, "twodocs")
+			}
+			for _, sh := range shapes {
+				for _, ex := range []int{0, 0, 0, 1} {
+					for v := 0; v < 4; v++ {
+						ones = append(ones, one{kind, sh, ex})
+					}
+				}
+			}
+		}
+		r.Cases(2000000, len(ones), 0, func(c *Case, rng *Rng) {
+			rng = c13Reseed(rng)
+			k := ones[c.Idx-2000000]
+			env, err := c12Setup(r, c, c12HookFiles[:1])
+			if err != nil {
+				c.Op("setup", "harness-error "+err.Error())
+				return
+			}
+			defer env.close()
+			good := PickOne(rng, []string{"valid", "valid", "empty"})
+			x := &c12Exec{eid: 1, hook: 0, q: 1, exit: k.exit, metrics: good, adm: good, conv: good, patch: good, nctx: 1}
+			switch k.kind {
+			case "metrics":
+				x.metrics = k.shape
+			case "admission":
+				x.adm = k.shape
+			case "conversion":
+				x.conv = k.shape
+			case "patch":
+				x.patch = k.shape
+			}
+			_ = env.writeScripts(x, rng)
+			env.runAll([]*c12Exec{x})
+			env.report(c, []*c12Exec{x})
+			c12Notes(c, []*c12Exec{x})
+			c.Nontrivial = true
+		})
 		r.Exhaust = true
+		r.Extra["malformed_shapes_scope"] = fmt.Sprintf("%d cases: every shape of malformed text (truncated, wrong type, stray closer, garbage, bad token, blank, second document) in each of the four files alone", len(ones))
 		r.Extra["exhaustive_scope"] = fmt.Sprintf("all %d combinations of exit in {0,1} x 6 metrics classes x 5 admission x 5 conversion x 7 patch classes, one execution each", len(combos))
 	}
 
-	// last, alone (the variable is process-global): the keep-tmp debug variable set to "yes"
-	r.One(2, func(c *Case, rng *Rng) {
-		app.DebugKeepTmpFilesVar = "yes"
-		defer func() { app.DebugKeepTmpFilesVar = "no" }()
-		env, err := c12Setup(r, c, c12HookFiles[:1])
-		if err != nil {
-			c.Op("setup", "harness-error "+err.Error())
-			return
+	// last, alone and one after the other (the setting is process-global): the values of
+	// --debug-keep-tmp-files. Documented (flag help, RUNNING.md): "set to yes to disable cleanup",
+	// default "no": exactly "yes" keeps the files, every other value removes them. The value goes
+	// through the real flag definition and the hooks are loaded by the real hook manager AFTER the
+	// setting is in place (loadHook hands the setting to NewHook).
+	keepValues := []string{"yes", "no", "false", "0", "true", "off", "No", "Yes", "YES", "1", "n", "y", "nope", "yes ", "ye", "none", "on"}
+	keepChosen := map[int]bool{0: true, 1: true, 2: true, 3: true}
+	{
+		// quick: the four fixed ones + four more picked by the seed
+		pick := NewRng(r.Seed*7919 + 17)
+		for len(keepChosen) < 8 {
+			keepChosen[4+pick.Intn(len(keepValues)-4)] = true
 		}
-		defer env.close()
-		c.Op("keep 1", "ok")
-		xs := []*c12Exec{
-			{eid: 1, hook: 0, q: 1, metrics: "valid", adm: "empty", conv: "empty", patch: "valid", nctx: 1},
-			{eid: 2, hook: 0, q: 2, exit: 1, metrics: "empty", adm: "empty", conv: "empty", patch: "empty", nctx: 2},
+	}
+	for i, v := range keepValues {
+		v := v
+		if !r.Thorough() && !keepChosen[i] && r.OnlyCase != 20+i {
+			continue
 		}
-		for _, x := range xs {
-			_ = env.writeScripts(x, rng)
+		idx := 2
+		if i > 0 {
+			idx = 20 + i
 		}
-		env.runAll(xs)
-		env.report(c, xs)
-		c.Note("corpus")
-		c.Desc = "keep-tmp debug variable = yes: the ten files stay"
-		c.Nontrivial = true
-	})
+		r.One(idx, func(c *Case, rng *Rng) {
+			defer func() { app.DebugKeepTmpFilesVar = "no" }()
+			viaEnv := rng.Bool()
+			got, err := c12ConfigureKeep(v, viaEnv)
+			if err != nil {
+				c.Op("setup", "harness-error flag parse: "+err.Error())
+				return
+			}
+			env, err := c12Setup(r, c, c12HookFiles[:2])
+			if err != nil {
+				c.Op("setup", "harness-error "+err.Error())
+				return
+			}
+			defer env.close()
+			c.Op("keepvar "+c12Hex(got), "ok")
+			xs := []*c12Exec{
+				{eid: 1, hook: 0, q: 1, metrics: "valid", adm: "empty", conv: "empty", patch: "valid", nctx: 1},
+				{eid: 2, hook: 1, q: 2, exit: 1, metrics: "empty", adm: "empty", conv: "empty", patch: "empty", nctx: 2},
+				{eid: 3, hook: 0, q: 1, metrics: PickOne(rng, []string{"truncated", "strayclose", "valid"}), adm: "valid", conv: "empty", patch: "empty", nctx: 1},
+			}
+			for _, x := range xs {
+				_ = env.writeScripts(x, rng)
+			}
+			env.runAll(xs)
+			env.setting = &got
+			env.report(c, xs)
+			c.Note("corpus")
+			c.Note(fmt.Sprintf("keep-setting:%q", got))
+			c.Desc = fmt.Sprintf("--debug-keep-tmp-files = %q (via env: %v): only \"yes\" keeps the files", got, viaEnv)
+			c.Nontrivial = true
+		})
+	}
 	_ = sort.Strings
 }
